@@ -7,7 +7,9 @@ up to depth k from every constructor route is executed on the implementation (de
 on the concrete representation: dictionary kinds, insertion order, list aliasing), and
 after every step every redundant view and every read-only query must equal the spec state.
 Then (code -> spec) long random histories and kbmag records are validated (see c09 parts
-`trace` and `gap`).
+`trace` and `gap`), and spec/fsa/FSAPair.tla (two automata and the input the first one was
+built from: the automata a caller holds are independent of each other, of the caller's
+dictionary, and a route taken again yields what the route says) is replayed (part `pair`).
 """
 import copy
 import json
@@ -178,6 +180,9 @@ def run(run, replay=None):
                 "concrete representation fingerprint) pairs reached")
     run.assumptions += [
         "universe: 3 vertices x 2 labels (and 2 x 3 in thorough); single start vertex",
+        "two-automata histories (FSAPair.tla): 2 vertices x 2 labels for the dictionary routes, letters a A b B for the "
+        "free-group constructor (every generating sequence without a letter and its inverse), f2.wa and two kbmag "
+        "records for the named routes; one edit per history in the quick tier",
         "inserting a second head for an existing (tail,label) and out-dict constructors with heads "
         "that are not keys are outside the property's domain",
         "harness projection/fingerprint code is trusted (exercised by selftest mutants)",
@@ -188,7 +193,10 @@ def run(run, replay=None):
         product(run, [0, 1, 2], ["a", "b"], max_build=3, depth=4)
         product(run, [0, 1], ["a", "b", "c"], max_build=3, depth=4, tag="_3labels")
     from . import c09_trace, c09_gap, c09_suite, c09_pair
-    c09_trace.run(run)
-    c09_suite.run(run)
-    c09_gap.run(run)
-    c09_pair.run(run)
+    import time
+    walls = {"product": round(time.time() - run.t0, 1)}
+    for name, part in (("trace", c09_trace), ("suite", c09_suite), ("gap", c09_gap), ("pair", c09_pair)):
+        t = time.time()
+        part.run(run)
+        walls[name] = round(time.time() - t, 1)
+    run.extra["part_wall_s"] = walls
